@@ -1,5 +1,6 @@
 import SnaxVerif.Lemmas.AccfgMove
 import SnaxVerif.Model.AccfgLoopOverlap
+import SnaxVerif.Lemmas.AccfgTaint
 /-! Loop-level overlap (rotation of the first setup of a loop body): correctness of the rotation (C06). -/
 namespace SnaxVerif.Accfg
 
@@ -836,5 +837,39 @@ theorem loop_overlap_trace (path : List Nat) (j fresh : Nat) (b b' b2 bg : Block
   have e4 := posB_sim cfg (fun x => fresh ≤ x) (rot_sim cfg j fresh) b path noFacts bg hg
     (fun x hx => Nat.not_le_of_lt (hreads x hx)) st st ⟨rfl, rfl, fun _ _ => rfl⟩
   rw [e1 st, ← noGhostB_exec cfg b2 hng st, e2 st, e3, e4.2.1]
+
+
+/-- the same with the taint analysis in place of launch totality: no launch and no effectful call of `bg` may see a register
+field last written by one of the two copies (no well-formedness condition needed) -/
+theorem loop_overlap_trace_taint (path : List Nat) (j fresh : Nat) (b b' b2 bg : Block)
+    (h' : applyLoopOverlapGen false false path j fresh b = some b')
+    (h2 : applyLoopOverlapGen true false path j fresh b = some b2)
+    (hg : applyLoopOverlapGen true true path j fresh b = some bg)
+    (hng : noGhostB b2 = true) (hok : okTB cfg.fields bg [] = true)
+    (hreads : ∀ x ∈ readsB b, x < fresh) (st : St) :
+    (execB cfg false b' st).tr = (execB cfg false b st).tr := by
+  unfold applyLoopOverlapGen at h' h2 hg
+  obtain ⟨b2', hb2', e1⟩ := rewriteB_rel cfg (rot_erase_orig cfg false j fresh) b path noFacts b' h'
+  rw [h2] at hb2'; injection hb2' with hb2'; subst hb2'
+  obtain ⟨bg', hbg', e2⟩ := rewriteB_rel cfg (rot_ghost_copies cfg j fresh) b path noFacts b2 h2
+  rw [hg] at hbg'; injection hbg' with hbg'; subst hbg'
+  have e3 := ghost_writes_unobservable_taint cfg bg hok st
+  have e4 := posB_sim cfg (fun x => fresh ≤ x) (rot_sim cfg j fresh) b path noFacts bg hg
+    (fun x hx => Nat.not_le_of_lt (hreads x hx)) st st ⟨rfl, rfl, fun _ _ => rfl⟩
+  rw [e1 st, ← noGhostB_exec cfg b2 hng st, e2 st, e3, e4.2.1]
+
+/-- pull (insertion of a setup) with the taint analysis in place of launch totality -/
+theorem insert_setup_trace_taint (path : List Nat) (a : AccId) (fs : List (Field × Var)) (b b' bg : Block)
+    (h' : insertAt path (.setup a fs) b = some b') (hg : insertAt path (.ghost a fs) b = some bg)
+    (hwf : wfB b = true) (hn : nodupB b = true) (hng : noGhostB b' = true)
+    (hok : okTB cfg.fields bg [] = true) (st : St) :
+    (execB cfg false b' st).tr = (execB cfg false b st).tr := by
+  unfold insertAt at h' hg
+  obtain ⟨bg', hbg', heq⟩ := rewriteB_rel cfg (insert_setup_ghost_rel cfg a fs) b path noFacts b' h'
+  rw [hg] at hbg'; injection hbg' with hbg'; subst hbg'
+  have h1 : execB cfg false bg st = execB cfg false b st :=
+    rewriteB_exec cfg (insert_ghost_ok cfg a fs) b path noFacts bg hg hwf hn st
+      (by intro a f x h; simp [noFacts] at h) (by intro a f x h; simp [noFacts] at h)
+  rw [← noGhostB_exec cfg b' hng st, heq st, ghost_writes_unobservable_taint cfg bg hok st, h1]
 
 end SnaxVerif.Accfg
